@@ -302,6 +302,21 @@ func (pc *propCheck) replayCommand() replayResult {
 	if !exists(goodV) {
 		return fail("goose ./... did not write %s for the package that translated", goodV)
 	}
+	if b, _ := os.ReadFile(goodV); !strings.Contains(string(b), "Definition Add") {
+		return fail("goose ./... wrote %s without the translated declaration (Definition Add): %d bytes", goodV, len(b))
+	}
+	// -dir selects the module; the command is started somewhere else
+	out3, _ := os.MkdirTemp(pc.WorkDir, "cmd3-")
+	{
+		elsewhere, _ := os.MkdirTemp(pc.WorkDir, "cwd-")
+		cmd := exec.Command(bin, "-dir", mod, "-out", out3, "./good")
+		cmd.Dir = elsewhere
+		cmd.Env = append(os.Environ(), "GOFLAGS=-mod=mod", "GOPROXY=off", "GOSUMDB=off", "GOTOOLCHAIN=local")
+		b, err := cmd.CombinedOutput()
+		if err != nil || !exists(filepath.Join(out3, "example_com", "cmdw", "good.v")) {
+			return fail("goose -dir <module> -out <dir> ./good started in another directory: err=%v, good.v written: %v\n%s", err, exists(filepath.Join(out3, "example_com", "cmdw", "good.v")), firstLine(string(b)))
+		}
+	}
 	if exists(badV) {
 		return fail("goose ./... wrote %s for a package with a conversion error (no -ignore-errors)", badV)
 	}
